@@ -300,20 +300,24 @@ def invGuess (T : Transc) (p a : Rat) : Rat :=
     let t := 1 - a * (0.253 + a * 0.12)
     if p < t then T.pow (p / t) (1 / a) else 1 - T.log (1 - (p - t) / (1 - t))
 
-/-- one pass of the Halley loop from a positive `x`: the new `x` and the step `t` -/
-def halleyStep (T : Transc) (px p a gln : Rat) (x : Rat) : Rat × Rat :=
+/-- the density `t` computed at the head of a pass of the Halley loop -/
+def halleyDensity (T : Transc) (a gln x : Rat) : Rat :=
   let a1 := a - 1
   let lna1 := T.log a1
   let afac := T.exp (a1 * (lna1 - 1) - gln)
+  if a > 1 then afac * T.exp (-(x - a1) + a1 * (T.log x - lna1)) else T.exp (-x + a1 * T.log x - gln)
+
+/-- the rest of the pass from a positive `x` with density `t ≠ 0`: the new `x` and the step -/
+def halleyStep (px p a t : Rat) (x : Rat) : Rat × Rat :=
   let err := px - p
-  let t := if a > 1 then afac * T.exp (-(x - a1) + a1 * (T.log x - lna1)) else T.exp (-x + a1 * T.log x - gln)
   let u := err / t
   let t := u / (1 - 1 / 2 * rmin 1 (u * ((a - 1) / x - 1)))
   let x1 := x - t
   let x1 := if x1 ≤ 0 then 1 / 2 * (x1 + t) else x1
   (x1, t)
 
-/-- `for(i<12)`: `P` is the library's own `GammaP` -/
+/-- `for(i<12)`: `P` is the library's own `GammaP`; after `fix:` 3ba3162 the loop stops when the
+    density underflows (`if(t == 0.0) break;`) -/
 def halley (T : Transc) (P : Rat → Rat → Except Err Rat) (p a gln : Rat) : Nat → Rat → Except Err Rat
   | 0, x => .ok x
   | f + 1, x =>
@@ -322,8 +326,11 @@ def halley (T : Transc) (P : Rat → Rat → Except Err Rat) (p a gln : Rat) : N
       match P x a with
       | .error e => .error e
       | .ok px =>
-        let (x1, t) := halleyStep T px p a gln x
-        if rabs t < 1.0e-8 * x1 then .ok x1 else halley T P p a gln f x1
+        let t := halleyDensity T a gln x
+        if t = 0 then .ok x
+        else
+          let (x1, t) := halleyStep px p a t x
+          if rabs t < 1.0e-8 * x1 then .ok x1 else halley T P p a gln f x1
 
 inductive InvBranch where
   | top | bottom | iterate
